@@ -38,6 +38,7 @@ Subset (everything else raises Untranslatable):
   * RECURSION: `fuel=True` gives the definition a fuel argument (`0`: RecursionError — Python has a recursion limit too);
     every recursive call passes `fuel`.  `callees={'g': n}`: the function `g` it calls is a parameter (used to cut a
     mutual recursion: the caller passes itself at the smaller fuel).
+  * `obj.attr[k] = e` (a store through a reference an object handed out) is the oracle's `setitem`.
   * logging calls (`ignore_calls`, default `log.*` / `self.debug|info|…`) and exception messages are not represented,
     but the attribute loads / subscripts / calls inside their arguments ARE evaluated (they can raise).
 
@@ -68,7 +69,7 @@ EXC_NAMES = {'Exception', 'TypeError', 'ValueError', 'KeyError', 'IndexError', '
 BUILTIN_TYPES = {'bool': 'bool', 'int': 'int', 'float': 'float', 'str': 'str', 'list': 'list', 'tuple': 'tuple',
                  'dict': 'dict'}
 BUILTIN_FUNCS = {'isinstance', 'float', 'list', 'tuple', 'str', 'len', 'zip', 'enumerate', 'reversed', 'map', 'max',
-                 'getattr', 'dict', 'type', 'super'}
+                 'getattr', 'dict', 'type', 'super', 'issubclass', 'hasattr'}
 MUTATING = {'pop', 'append', 'extend', 'update'}
 ALL_MUTATORS = MUTATING | {'insert', 'remove', 'clear', 'sort', 'reverse', 'setdefault', 'popitem', 'add', 'discard'}
 VIEWS = {'items', 'keys', 'values'}
@@ -140,6 +141,16 @@ class DynFn:
         self.callname = spec.get('callname', spec['func'])
         self.ntemp = 0
         self.module_names = self.module_bound_names(tree)
+        # `from a.b import c [as d]` at module level or inside the function: local name -> (module, name); relative imports
+        # are resolved against the package of this module
+        self.imports = {}
+        pkg = spec['module'][:-3].replace('/', '.').split('.')[:-1]
+        for n in list(tree.body) + [x for x in ast.walk(self.node) if isinstance(x, ast.ImportFrom)]:
+            if isinstance(n, ast.ImportFrom):
+                base = pkg[:len(pkg) - (n.level - 1)] if n.level else []
+                mod = '.'.join(base + ([n.module] if n.module else []))
+                for a in n.names:
+                    self.imports[a.asname or a.name] = (mod, a.name)
 
     # ------------------------------------------------------------------ helpers
     def fail(self, node, why):
@@ -441,12 +452,18 @@ class DynFn:
         if tgt is not None and 'dyn' in tgt:
             if isinstance(call.func, ast.Name) and call.func.id in self.locals:
                 return None
+            if isinstance(call.func, ast.Name) and tgt['dyn'].get('module') != self.spec['module']:
+                # a function of another module: only if this module / function imports exactly that one
+                want = tgt['dyn'].get('module', '')[:-3].replace('/', '.')
+                if self.imports.get(call.func.id) != (want, tgt['dyn'].get('func')):
+                    return None
             return tgt
         return None
 
     def own_sig(self):
         return dict(params=self.param_names, kinds=self.param_kinds, defaults=self.defaults, mutates=self.mutates,
-                    fuel=self.fuel, callees=self.callees, takes_self=self.takes_self)
+                    fuel=self.fuel, callees=self.callees, takes_self=self.takes_self, module=self.spec['module'],
+                    func=self.spec['func'])
 
     def bind_args(self, call, tgt, check_only=False):
         """parameter name -> argument AST (or ('default', constant)) for a call of a translated function"""
@@ -558,7 +575,7 @@ class DynFn:
                     return self.const(-node.operand.value, node)
                 return self.bindm(out, 'Dyn.neg ext %s' % self.expr(node.operand, out))
             if isinstance(node.op, ast.Not):
-                return '(Dyn.Val.bool %s)' % self.cond(node, out)
+                return '(Dyn.Val.bool (%s))' % self.cond(node, out)
             self.fail(node, 'unsupported unary operator')
         if isinstance(node, ast.Compare):
             if len(node.ops) == 1 and type(node.ops[0]) in CMPOPS:
@@ -572,7 +589,7 @@ class DynFn:
                 if isinstance(node.ops[0], ast.NotEq):
                     return '(Dyn.Val.bool (!%s))' % self.bindm(out, 'Dyn.truthy ext %s' % t)
                 return t
-            return '(Dyn.Val.bool %s)' % self.cond(node, out)
+            return '(Dyn.Val.bool (%s))' % self.cond(node, out)
         if isinstance(node, ast.BoolOp):
             # `a or b` / `a and b` as VALUES: the first operand that decides, the others are not evaluated
             vals = list(node.values)
@@ -977,7 +994,7 @@ class DynFn:
         n = node.func.id
         a = node.args
         if n == 'isinstance':
-            return '(Dyn.Val.bool %s)' % self.isinstance_test(node, out)
+            return '(Dyn.Val.bool (%s))' % self.isinstance_test(node, out)
         if node.keywords:
             self.fail(node, 'keyword arguments in a call of the built-in %s' % n)
         if n in ('float', 'str', 'len', 'max') and len(a) == 1:
@@ -993,6 +1010,11 @@ class DynFn:
             it = self.temp()
             return self.bindm(out, 'Dyn.forM %s (Dyn.Val.dict []) (fun acc__ %s => do\n'
                               '    let (k__, v__) ← Dyn.unpack2 ext %s\n    Dyn.setItem ext acc__ k__ v__)' % (xs, it, it))
+        if n in ('issubclass', 'hasattr') and len(a) == 2:
+            # answered by the oracle (class hierarchy / attribute tables are not built-in data)
+            x = self.expr(a[0], out)
+            y = self.expr(a[1], out)
+            return self.bindm(out, 'ext.op %s [%s, %s]' % (lstr(n), x, y))
         if n == 'getattr' and len(a) == 2:
             o = self.expr(a[0], out)
             nm = self.expr(a[1], out)
@@ -1255,7 +1277,7 @@ class DynFn:
             if isinstance(s.value, ast.Lambda):
                 self.fail(s, 'a lambda bound to a name')
             e = self.expr(s.value, out)
-            out.append('let %s := %s' % (self.var(t.id), e))
+            out.append('let %s : %s := %s' % (self.var(t.id), V, e))
             self.defined.add(t.id)
             return
         if isinstance(t, (ast.Tuple, ast.List)):
@@ -1273,6 +1295,13 @@ class DynFn:
             c = self.expr(t.value, out)
             k = self.expr(t.slice, out)
             out.append('let %s ← Dyn.setItem ext %s %s %s' % (c, c, k, e))
+            return
+        if isinstance(t, ast.Subscript) and isinstance(t.value, ast.Attribute) and not isinstance(t.slice, ast.Slice):
+            # `obj.attr[k] = e`: a store through a reference that an object handed out — the oracle's (it owns that container)
+            e = self.expr(s.value, out)
+            c = self.expr(t.value, out)
+            k = self.expr(t.slice, out)
+            out.append('let _ ← ext.op "setitem" [%s, %s, %s]' % (c, k, e))
             return
         self.fail(s, 'unsupported assignment target')
 
